@@ -62,6 +62,15 @@ func init() {
 		}); err != nil {
 			return err
 		}
+		// plain parallel traffic: every request must get the outcome (parameter values included) it gets alone
+		for _, router := range []string{"curly", "jsr"} {
+			ho := routing.FullOpts(router)
+			ho.Faults = false
+			routing.CheckHammer(run, "C04", ho, run.Seed*2654435761+uint64(len(router)), sizes(run, 40, 400), 16, 6)
+			// … and tables full of tail wildcards (the value is assembled from several segments), hammered longer
+			ho.WildHeavy, ho.AllowRe, ho.AllowSuf, ho.AllowVerb, ho.Adversarial = true, false, false, false, false
+			routing.CheckHammer(run, "C04", ho, run.Seed*40503+uint64(len(router)), sizes(run, 10, 100), 12, 60)
+		}
 		// the values bound for one request while other requests to the same and to other routes are being
 		// routed: batches held together after routing and released; every stage must see the parameters it
 		// sees when the request is served alone
